@@ -61,12 +61,28 @@ def op_statement_ids(method):
     return {ph["name"]: ["%s_%d" % (ph["name"], i) for i in range(10 ** 4)] for ph in method["phases"]}
 
 
-def dependents(phase, sid):
-    """Statements that transitively depend on sid in the recorded graph."""
+def barrier_ops(ph):
+    """Pre-order indices (the builder's statement numbers) of the non-assignments of a phase."""
+    from vlib.progen import walk_ops
+    return [i for i, op in enumerate(walk_ops(ph["body"])) if op[0] in ("yield", "fail", "switch", "restart", "raise")]
+
+
+def dependents(phase, sid, ph=None):
+    """Statements that transitively depend on sid: the recorded graph, plus - stated independently of what the
+    builder recorded - the ordering the language documents for non-assignments (yield, fail, switch, raise):
+    each waits for every statement written before it, and every statement written after it waits for it."""
     succ = {}
     for s in phase.statements:
         for d in s.depends_on:
             succ.setdefault(d, []).append(s.id)
+    if ph is not None:
+        n = len(phase.statements)
+        name = ph["name"]
+        for b in barrier_ops(ph):
+            for i in range(b):
+                succ.setdefault("%s_%d" % (name, i), []).append("%s_%d" % (name, b))
+            for j in range(b + 1, n):
+                succ.setdefault("%s_%d" % (name, b), []).append("%s_%d" % (name, j))
     out = set()
     todo = [sid]
     while todo:
@@ -164,13 +180,14 @@ def check_case(case, collect=None):
     pnames = B.persistent_names(method)
     npers = len(pnames)
     problems = []
+    phases_by_name = {ph["name"]: ph for ph in method["phases"]}
     for site, j, si, opi, wrote_before in plan_items:
         stp = steps[si]
         phase = dag.phases[stp["phase"]]
         sid = "%s_%d" % (stp["phase"], opi)
         if sid not in phase.id_to_stmt:
             return "cannot map op %d of phase %s to a statement" % (opi, stp["phase"]), info
-        dep = dependents(phase, sid) | {sid}
+        dep = dependents(phase, sid, phases_by_name[stp["phase"]]) | {sid}
         # allowed values per persistent variable
         allowed = {n: [v] for n, v in stp["pre"].items()}
         failing_after = {}
